@@ -21,6 +21,7 @@ function, element_junction_tuples; the contracts are
 Bounded stand-in (native): one network with every component type (pipe-attached valves, remote pressure
 control, circulation pumps) under relabelling with pipe/junction label coincidences, drop, fuse, subnet.
 """
+import ast
 import z3
 
 from pvc.harness import unit, venv_run
@@ -635,3 +636,69 @@ def continuous_index(ctx):
                         isinstance(lk, tuple) and lk[0] == "dict" and lk[1][0] == "zip" and lk[1][1] == ("junction", "<index>")
                         and isinstance(lk[1][2], tuple) and lk[1][2][0] == "list" and lk[1][2][1][0] == "np.arange"
                         and lk[1][2][1][1] == "start", witness=repr(lk))
+
+
+# ---------------------------------------------------------------------------------------------
+# which rows of valve.element are JUNCTION references: the solver's own use of the column (prefix of the real function)
+
+@unit("C17", "valve_element_reference_rows", functions=["pandapipes.component_models.valve_component:Valve.create_pit_branch_entries"],
+      engine="E3")
+def valve_element_reference_rows(ctx):
+    """the declared reference schema (valve.element references a junction exactly on the rows with et == 'ju') is the
+    solver's: Valve.create_pit_branch_entries looks `element` up in the JUNCTION lookup on those rows only, and `junction`
+    on every row.  Mechanical extraction: the body of the real method up to (and including) the statement that fills
+    to_nodes for the junction valves; everything after it (re-wiring of the pipes of pipe-attached valves, parameter
+    columns) is dropped and `return from_nodes, to_nodes` appended."""
+    ctx.assume("A4", "A6", "A7")
+    import copy as _copy
+    VCM = "pandapipes.component_models.valve_component"
+    fref = S.get_function(VCM + ":Valve.create_pit_branch_entries")
+    ctx.use_function(fref)
+    node = _copy.deepcopy(fref.node)
+    # the prefix: every statement before the first top-level `if` (the block that re-wires pipes and fills parameter columns)
+    firstif = [k for k, st in enumerate(node.body) if isinstance(st, ast.If)]
+    names_before = set()
+    for st in (node.body[:firstif[0]] if firstif else []):
+        for n_ in ast.walk(st):
+            if isinstance(n_, ast.Name) and isinstance(n_.ctx, ast.Store):
+                names_before.add(n_.id)
+    cut = firstif[0] - 1 if firstif and {"from_nodes", "to_nodes"} <= names_before else None
+    ctx.structural("prefix/found", "cover", cut is not None,
+                   witness="from_nodes / to_nodes are not both assigned before the first top-level `if` of the method")
+    if cut is None:
+        return
+    node.body = node.body[:cut + 1] + [ast.parse("return from_nodes, to_nodes").body[0]]
+    ast.fix_missing_locations(node)
+    pref = S.FunctionRef(fref.module, fref.qualname, node, fref.cls)
+    cref = S.get_module(VCM).classes["Valve"]
+    n, NLJ = z3.Int("NV"), z3.Int("NLJ")
+    cols = {"junction": "i", "element": "i", "et": "i"}
+
+    def mk():
+        net = K.NetObj({"valve": K.sym_table("valve", n, cols),
+                        "_lookups": {"node_index": {"junction": K.sym_arr("junction_lookup", NLJ, "i")}}})
+        return [cref, net, K.sym_pit("branch_pit", z3.Int("NB"), 4)], {}
+    BWI_ = "pandapipes.component_models.abstract_models.branch_w_internals_models"
+    triple = (K.sym_arr("int_nodes", n, "i"), K.sym_arr("inverse_index", z3.Int("NPI"), "i"), K.sym_arr("mask_p", z3.Int("NPI"), "i"))
+    ev = E.Evaluator(contracts={BWI_ + ":BranchWInternalsComponent.create_pit_branch_entries": lambda e_, a, k: (a[2], K.sym_pit("node_pit", z3.Int("NN"), 4)),
+                                VCM + ":Valve.get_internal_node_number": lambda e_, a, k: triple})
+    try:
+        paths = ev.run_all(pref, mk)
+    except Unsupported as e:
+        ctx.undecided("prefix/subset", "unsupported", str(e))
+        return
+    ok = len(paths) == 1 and paths[0].exc is None and isinstance(paths[0].result, tuple)
+    ctx.decided("prefix/single-path", "cover", ok, witness=str([str(p.exc) for p in paths]))
+    if not ok:
+        return
+    fn_, tn_ = paths[0].result
+    tbl = K.sym_table("valve", n, cols)
+    L = K.sym_arr("junction_lookup", NLJ, "i")
+    r = z3.Int("r")
+    is_ju = tbl.columns["et"].f(r) == V.str_code("ju")
+    base = [n >= 1, r >= 0, r < n] + list(paths[0].facts)
+    ctx.ob("junction-column-is-a-junction-reference-on-every-row", "schema", base,
+           K.eq_val(fn_.f(r), L.f(V.I(tbl.columns["junction"].f(r)))))
+    ctx.ob("element-is-looked-up-as-a-junction-on-ju-rows", "schema", base + [is_ju],
+           K.eq_val(tn_.f(r), L.f(V.I(tbl.columns["element"].f(r)))))
+    ctx.ob("element-is-NOT-looked-up-as-a-junction-on-other-rows", "schema", base + [z3.Not(is_ju)], K.eq_val(tn_.f(r), 0))
